@@ -185,12 +185,17 @@ def report(prop, tier, seed_, t, *, records, trace_module, mc_stats, rule, sampl
 
 
 def replay_record(prop, path):
+    """Replay of an observation-type violation: the logged record is re-validated by TLC (is the verdict
+    reproducible?) and then the whole check is re-executed on the current tree with the recorded seed and tier
+    (does the current tree still produce a record with these clauses?)."""
     p = json.load(open(path))
-    print("replay of observation records re-validates the logged record; to re-execute, run the check again")
     bad = common.validate_records([p["record"]], p["trace_module"])
     cl = [c for c in bad.get(p["record"]["rid"], []) if c.startswith(prop + ":")]
-    print(json.dumps({"clauses": cl}))
-    if cl:
-        print(f"VIOLATION property={prop} replay={path}")
-        return 1
-    return 0
+    print(json.dumps({"logged_record_clauses": cl}))
+    if not cl:
+        raise MachineryError("the logged record is accepted by the trace specification: not a reproducible verdict")
+    from . import registry
+
+    os.environ["XGI_VERIF_EVIDENCE"] = tempfile.mkdtemp(prefix="replay-ev-", dir=common.scratch())
+    common.EVID = os.environ["XGI_VERIF_EVIDENCE"]
+    return registry.run(prop, p.get("tier", "quick"), int(p.get("seed", 0)))
